@@ -3,3 +3,5 @@ import EmdProps.C01
 import EmdProps.C07
 import EmdProps.C08
 import EmdProps.C09
+import EmdProps.C10
+import EmdProps.C11
